@@ -331,7 +331,7 @@ def check(repo: Repo, run: Run) -> None:
                     run.ob("R3", mod.name, fname, f"{e.kind} {sym.pretty(pth)[:60]}", False,
                            f"{fname} mutates the module-level object {sym.pretty(root)}", line=e.lineno)
     run.floor("R1", "decoders analysed", n_dec, 440)
-    run.floor("R1", "state writes/reads classified", total, 14)
+    run.floor("R1", "state writes/reads classified", total, 10)
     _canary(run, interp)
 
 
